@@ -39,6 +39,21 @@ func runC16(c *Ctx) error {
 		if c.Rng.Chance(1, 4) {
 			id = []byte(fmt.Sprintf("%015d", c.Rng.U64()%1000000000000000))
 		}
+		if hs := c.Rng.hotString(); hs != "" && c.Rng.Chance(1, 2) { // dictionary of the changed functions' literals
+			switch c.Rng.Intn(4) {
+			case 0:
+				id = []byte(hs)
+			case 1:
+				id = append([]byte(hs), id...)
+			case 2:
+				id = append(id, hs...)
+			default:
+				id = append(append(c.Rng.Bytes(c.Rng.Range(0, 4)), hs...), c.Rng.Bytes(c.Rng.Range(0, 12))...)
+			}
+			if len(id) > 255 {
+				id = id[:255]
+			}
+		}
 		cs := fmt.Sprintf("(aka_prf %s %s %s)", hx(ik), hx(ck), hx(id))
 		impl := implAkaPrf(ik, ck, id)
 		r.ImplRuns++
